@@ -105,6 +105,8 @@ def run_case(case):
         res.emit("hx.preorder 0", ";".join("%s=%s" % (nibstr(p), hexlib.fmt_ann(n)) for p, n in nodes) if nodes else "-")
         # the model's transcription of the fog + frontier-cache loop of nodes() must give the same sequence
         res.emit("hx.nodesloop 0", ";".join("%s=%s" % (nibstr(p), hexlib.fmt_ann(n)) for p, n in nodes) if nodes else "-")
+        # ... and so must the same loop run over the database of encoded bodies (root hash + raw node cache)
+        res.emit("hx.nodesloopd 0", ";".join("%s=%s" % (nibstr(p), hexlib.fmt_ann(n)) for p, n in nodes) if nodes else "-")
         prefixes = [tuple(p) for p, _ in nodes]
         if len(set(prefixes)) != len(prefixes):
             res.fail("nodes-duplicate", "nodes() yields a prefix twice: %r" % (prefixes,))
